@@ -9,6 +9,7 @@ with `ys` after `n'` comparisons, `Res.fail e buf n'` = comparison `n'-1` failed
 caller's buffer holds `buf`, `Res.panic` = the `debug_assert!` at the end of `try_sort`.
 -/
 import XrayProofs.Sort
+import XrayProofs.Derive
 namespace XrayModel.C19
 open XrayModel XrayModel.Sort
 
@@ -181,5 +182,134 @@ theorem seqSorted_spec {c3 : α → α → Int} (cmp : Cmp3 ε α) (hp : ∀ i a
           · simp
           · exact ih (n + 1)
     exact this _ _ hpre
+
+/-! ## derived eq / hash / cmp and the relational operators
+
+`PureEq f g` etc.: the component function never answers an error value and computes `g`.
+`BEquiv g`: `g` is reflexive, symmetric, transitive. -/
+section derive
+open XrayModel.Derive
+
+variable {β σ : Type}
+
+/-- derived `eq` of sequences (and of stacks: `stackEq` is the same code) is an equivalence if the
+element `eq` is -/
+theorem eq_equiv_seq {f : β → β → R Bool} {g : β → β → Bool} (hp : PureEq f g) (hg : BEquiv g) :
+    PureEq (seqEq f) (seqEqB g) ∧ PureEq (stackEq f) (seqEqB g) ∧ BEquiv (seqEqB g) :=
+  ⟨seqEq_pure hp, seqEq_pure hp, seqEqB_equiv hg⟩
+
+/-- derived `eq` of optionals is an equivalence if the payload `eq` is -/
+theorem eq_equiv_opt {f : β → β → R Bool} {g : β → β → Bool} (hp : PureEq f g) (hg : BEquiv g) :
+    PureEq (optEq f) (optEqB g) ∧ BEquiv (optEqB g) :=
+  ⟨optEq_pure hp, optEqB_equiv hg⟩
+
+/-- derived `eq` of tuples (one component relation per position) is an equivalence on the tuples of
+that type (lists with as many components as there are positions) -/
+theorem eq_equiv_tuple {fs : List (β → β → R Bool)} {gs : List (β → β → Bool)}
+    (hp : List.Forall₂ PureEq fs gs) (hg : ∀ g ∈ gs, BEquiv g) :
+    (∀ t0 t1, tupleEq fs t0 t1 = .ok (all2s gs t0 t1)) ∧
+    (∀ t, all2s gs t t = true) ∧
+    (∀ t0 t1, all2s gs t0 t1 = true → all2s gs t1 t0 = true) ∧
+    (∀ t0 t1 t2, t1.length = gs.length → all2s gs t0 t1 = true → all2s gs t1 t2 = true →
+      all2s gs t0 t2 = true) :=
+  ⟨tupleEq_pure hp, (all2s_equiv hg).1, (all2s_equiv hg).2.1, (all2s_equiv hg).2.2⟩
+
+/-- equal sequences (stacks) have equal hashes, whatever the hasher, if equal elements do -/
+theorem hash_congr_seq (H : Hasher σ) {f : β → β → R Bool} {g : β → β → Bool} {hf : β → R Int}
+    {k : β → Int} (hp : PureEq f g) (hh : PureHash hf k) (hc : ∀ a b, g a b = true → k a = k b)
+    (l0 l1 : List β) (he : seqEq f l0 l1 = .ok true) :
+    seqHash H hf l0 = seqHash H hf l1 ∧ stackHash H hf l0 = stackHash H hf l1 := by
+  rw [seqEq_pure hp l0 l1] at he
+  have he' : seqEqB g l0 l1 = true := by simpa using he
+  simp only [seqEqB, Bool.and_eq_true, beq_iff_eq] at he'
+  have := all2_map_eq hc l0 l1 he'.1 he'.2
+  simp only [seqHash, stackHash, map_pure hh, this, and_self]
+
+/-- every derived hash that goes through the hasher lies in `[0, 2^64)` (tuples, sequences, stacks) -/
+theorem hash_range_seq (H : Hasher σ) (hfin : ∀ s, H.finish s < U64) (hf : β → R Int) (l : List β)
+    (v : Int) (e : seqHash H hf l = .ok v) : 0 ≤ v ∧ v < (2 : Int) ^ 64 := by
+  have := hashFold_range H hfin H.init (l.map hf) v e
+  simpa [U64] using this
+
+theorem hash_range_tuple (H : Hasher σ) (hfin : ∀ s, H.finish s < U64) (fs : List (β → R Int))
+    (t : List β) (v : Int) (e : tupleHash H fs t = .ok v) : 0 ≤ v ∧ v < (2 : Int) ^ 64 := by
+  have := hashFold_range H hfin H.init _ v e
+  simpa [U64] using this
+
+/-- optionals: `hash(none) = 0`, `hash(some(x)) = hash(x)`; congruent with the derived `eq` -/
+theorem hash_congr_opt {f : β → β → R Bool} {g : β → β → Bool} {hf : β → R Int} {k : β → Int}
+    (hp : PureEq f g) (hh : PureHash hf k) (hc : ∀ a b, g a b = true → k a = k b)
+    (o0 o1 : Option β) (he : optEq f o0 o1 = .ok true) : optHash hf o0 = optHash hf o1 := by
+  rw [optEq_pure hp o0 o1] at he
+  have he' : optEqB g o0 o1 = true := by simpa using he
+  cases o0 with
+  | none => cases o1 <;> simp_all [optEqB, optHash]
+  | some a =>
+    cases o1 with
+    | none => simp_all [optEqB, optHash]
+    | some b =>
+      simp only [optEqB] at he'
+      simp only [optHash, hh a, hh b, hc a b he']
+
+/-- the hash of a set depends only on the multiset of its buckets (not on `HashMap`'s iteration
+order) and lies in `[0, 2^64)`.  (Two equal sets have the same buckets once empty buckets are never
+kept — the C17 repair of `remove`/`discard`.) -/
+theorem hash_set_order_independent {b1 b2 : List (Nat × List β)} (h : b1.Perm b2) :
+    setHash b1 = setHash b2 ∧ setHash b1 < 2 ^ 64 :=
+  ⟨setHash_perm h, by simpa [U64] using setHash_range b1⟩
+
+/-- derived `cmp` of sequences is lexicographic over the elements (a proper prefix comes first), is
+zero exactly on `eq`-equal sequences, is sign-antisymmetric and transitive: a total order consistent
+with `eq` — provided the element `cmp` is one (`Cmp3Ord`) -/
+theorem cmp_total_lex {f : β → β → R Int} {c : β → β → Int} {g : β → β → Bool}
+    (hp : PureCmp f c) (hc : Cmp3Ord c g) :
+    PureCmp (seqCmp f) (seqCmpI c) ∧
+    (∀ a b l0 l1, seqCmpI c (a :: l0) (b :: l1) = if c a b ≠ 0 then c a b else seqCmpI c l0 l1) ∧
+    seqCmpI c [] [] = 0 ∧ (∀ b l, seqCmpI c [] (b :: l) = -1) ∧ (∀ a l, seqCmpI c (a :: l) [] = 1) ∧
+    (∀ l0 l1, seqCmpI c l0 l1 = 0 ↔ seqEqB g l0 l1 = true) ∧
+    (∀ l0 l1, seqCmpI c l0 l1 < 0 ↔ seqCmpI c l1 l0 > 0) ∧
+    (∀ l0 l1 l2, seqCmpI c l0 l1 < 0 → seqCmpI c l1 l2 < 0 → seqCmpI c l0 l2 < 0) :=
+  ⟨seqCmp_pure hp, seqCmpI_cons c, seqCmpI_nil_nil c, seqCmpI_nil_cons c, seqCmpI_cons_nil c,
+   seqCmpI_zero_iff hc, seqCmpI_anti hc, seqCmpI_trans hc⟩
+
+/-- `Cmp3Ord` is satisfiable: `int`'s `cmp` -/
+example : Cmp3Ord (fun a b : Int => Derive.sign (a - b)) (fun a b => a == b) := int_cmp3ord
+
+/-- `ne / lt / le / gt / ge / min / max` agree with `eq` and `cmp` -/
+theorem rel_ops_agree {fe : β → β → R Bool} {g : β → β → Bool} {fc : β → β → R Int} {c : β → β → Int}
+    (he : PureEq fe g) (hp : PureCmp fc c) (hc : Cmp3Ord c g) (a b : β) :
+    Derive.ne fe a b = .ok (!g a b) ∧
+    Derive.lt fc a b = .ok (decide (c a b < 0)) ∧
+    Derive.gt fc a b = .ok (decide (c b a < 0)) ∧
+    Derive.le fc a b = .ok (decide (c a b < 0) || g a b) ∧
+    Derive.ge fc a b = .ok (decide (c b a < 0) || g a b) ∧
+    Derive.max (Derive.lt fc) a b = .ok (if c a b < 0 then b else a) ∧
+    Derive.min (Derive.lt fc) a b = .ok (if c b a < 0 then b else a) := by
+  have h1 := hc.anti a b
+  have h2 := hc.anti b a
+  have h3 := hc.zero_iff a b
+  have hg : g a b = decide (c a b = 0) := by
+    cases hgab : g a b with
+    | true => simp [h3.mpr hgab]
+    | false =>
+      have : ¬ c a b = 0 := fun e => by rw [h3.mp e] at hgab; cases hgab
+      simp [this]
+  refine ⟨?_, ?_, ?_, ?_, ?_, ?_, ?_⟩
+  · simp [Derive.ne, he a b, bind, Except.bind, pure, Except.pure]
+  · simp [Derive.lt, hp a b, bind, Except.bind, pure, Except.pure]
+  · simp only [Derive.gt, hp a b, bind, Except.bind, pure, Except.pure]
+    congr 1; simp only [decide_eq_decide]; omega
+  · simp only [Derive.le, hp a b, bind, Except.bind, pure, Except.pure, hg]
+    congr 1
+    by_cases q1 : c a b < 0 <;> by_cases q2 : c a b = 0 <;> simp [q1, q2] <;> omega
+  · simp only [Derive.ge, hp a b, bind, Except.bind, pure, Except.pure, hg]
+    congr 1
+    by_cases q1 : c a b < 0 <;> by_cases q2 : c a b = 0 <;> by_cases q3 : c b a < 0 <;> simp [q1, q2, q3] <;> omega
+  · simp only [Derive.max, Derive.lt, hp a b, bind, Except.bind, pure, Except.pure]
+    by_cases q1 : c a b < 0 <;> simp [q1]
+  · simp only [Derive.min, Derive.lt, hp b a, bind, Except.bind, pure, Except.pure]
+    by_cases q1 : c b a < 0 <;> simp [q1]
+
+end derive
 
 end XrayModel.C19
